@@ -1,3 +1,4 @@
+mod baton;
 mod checks;
 mod closure;
 mod corpus;
